@@ -15,6 +15,7 @@ import (
 	"sort"
 	"strconv"
 	"strings"
+	"sync"
 	"time"
 )
 
@@ -54,6 +55,10 @@ type Solver struct {
 	Unknowns  int
 	Errors    []string
 	TimeoutMS int
+
+	Winners   map[string]int
+	noRace    bool
+	raceDelay time.Duration
 }
 
 type cachedModel struct {
@@ -63,7 +68,16 @@ type cachedModel struct {
 
 func NewSolver(bin string, timeoutMS int, logPath string) (*Solver, error) {
 	s := &Solver{cache: map[string]Result{}, TimeoutMS: timeoutMS, bin: bin, cvc5: strings.Contains(bin, "cvc5"),
-		constArrs: map[string][]byte{}, symMemo: map[*Term][]int32{}, symIDs: map[string]int32{}}
+		constArrs: map[string][]byte{}, symMemo: map[*Term][]int32{}, symIDs: map[string]int32{}, Winners: map[string]int{}}
+	s.raceDelay = 50 * time.Millisecond
+	if d := os.Getenv("VSYM_RACE_DELAY_MS"); d != "" {
+		var ms int
+		fmt.Sscanf(d, "%d", &ms)
+		s.raceDelay = time.Duration(ms) * time.Millisecond
+	}
+	if os.Getenv("VSYM_NORACE") != "" {
+		s.noRace = true
+	}
 	if logPath != "" {
 		f, err := os.Create(logPath)
 		if err != nil {
@@ -349,35 +363,17 @@ func (s *Solver) check(pc []*Term, goal *Term, doSlice bool) Result {
 		}
 	}
 	t0 := time.Now()
-	s.send("(reset)")
-	if !s.cvc5 {
-		s.send("(set-option :produce-models true)")
-		s.send(fmt.Sprintf("(set-option :timeout %d)", s.TimeoutMS))
-	} else {
-		s.send("(set-logic ALL)")
-	}
-	s.send(scriptBody(lits, s.constArrs))
-	s.send("(check-sat)")
-	line, err := s.readSexp()
+	body := scriptBody(lits, s.constArrs)
+	gv, plan := modelPlan(lits)
+	r, resp, who, err := s.race(body, gv, len(plan.cmdSizes))
 	el := time.Since(t0).Seconds()
 	s.Seconds += el
 	s.Queries++
-	var r Result
-	switch {
-	case err != nil:
-		s.Errors = append(s.Errors, "solver died: "+err.Error())
-		r = Unknown
-		s.restart()
-	case line == "sat":
-		r = Sat
-	case line == "unsat":
-		r = Unsat
-	case line == "unknown" || line == "timeout":
-		r = Unknown
-		s.Unknowns++
-	default:
-		s.Errors = append(s.Errors, line)
-		r = Unknown
+	s.Winners[who]++
+	if err != nil {
+		s.Errors = append(s.Errors, err.Error())
+	}
+	if r == Unknown {
 		s.Unknowns++
 	}
 	if s.log != nil {
@@ -395,7 +391,7 @@ func (s *Solver) check(pc []*Term, goal *Term, doSlice bool) Result {
 			s.unsatSets = s.unsatSets[1000:]
 		}
 	case Sat:
-		if m := s.fetchModel(lits); m != nil {
+		if m := plan.build(resp, s.constArrs); m != nil {
 			s.lastModel = m
 			s.models = append(s.models, &cachedModel{m: m, memo: map[*Term]uint64{}})
 			if len(s.models) > 16 {
@@ -424,86 +420,6 @@ func (s *Solver) GetModel(pc []*Term, goal *Term) *Model {
 		return nil
 	}
 	return s.lastModel
-}
-
-// fetchModel reads the values of every variable, array cell and UF point below lits.
-// The solver must be in the sat state of a query over lits.
-func (s *Solver) fetchModel(all []*Term) *Model {
-	m := &Model{Vars: map[string]uint64{}, Arrays: map[string]map[uint64]uint64{}, UFs: map[string]map[string]uint64{}, ConstArrs: s.constArrs}
-	seen := map[*Term]bool{}
-	var vars, sels, ufs []*Term
-	for _, l := range all {
-		collectLeaves(l, seen, func(t *Term) {
-			switch t.Op {
-			case OpVar, OpBVar:
-				vars = append(vars, t)
-			case OpSelect:
-				sels = append(sels, t)
-			case OpUF:
-				ufs = append(ufs, t)
-			}
-		})
-	}
-	bad := false
-	get := func(ts []*Term) []uint64 {
-		out := make([]uint64, len(ts))
-		for i := 0; i < len(ts); i += 200 {
-			j := min(i+200, len(ts))
-			var sb strings.Builder
-			sb.WriteString("(get-value (")
-			for _, t := range ts[i:j] {
-				sb.WriteString(termRef(t) + " ")
-			}
-			sb.WriteString("))")
-			s.send(sb.String())
-			resp, _ := s.readSexp()
-			vals := parseGetValue(resp)
-			if len(vals) != j-i {
-				s.Errors = append(s.Errors, "get-value parse: "+resp)
-				bad = true
-				continue
-			}
-			copy(out[i:j], vals)
-		}
-		return out
-	}
-	vv := get(vars)
-	for i, t := range vars {
-		m.Vars[t.Name] = vv[i]
-	}
-	if len(sels) > 0 {
-		idx := make([]*Term, len(sels))
-		for i, t := range sels {
-			idx[i] = t.Args[0]
-		}
-		iv := get(idx)
-		sv := get(sels)
-		for i, t := range sels {
-			if m.Arrays[t.Name] == nil {
-				m.Arrays[t.Name] = map[uint64]uint64{}
-			}
-			m.Arrays[t.Name][iv[i]] = sv[i]
-		}
-	}
-	for _, t := range ufs {
-		av := get(t.Args)
-		rv := get([]*Term{t})
-		var sb strings.Builder
-		for i, a := range av {
-			if i > 0 {
-				sb.WriteByte(',')
-			}
-			fmt.Fprintf(&sb, "%d", a)
-		}
-		if m.UFs[t.Name] == nil {
-			m.UFs[t.Name] = map[string]uint64{}
-		}
-		m.UFs[t.Name][sb.String()] = rv[0]
-	}
-	if bad {
-		return nil
-	}
-	return m
 }
 
 // parseGetValue parses "((name val) (name val) ...)" and returns the values in order.
@@ -696,4 +612,315 @@ func RunScript(bin string, args []string, script string, timeout time.Duration) 
 		return Sat, txt
 	}
 	return Unknown, txt
+}
+
+// ---------------------------------------------------------------- model extraction plan
+
+type modelPlanT struct {
+	vars, sels, ufs []*Term
+	cmdSizes        []int // number of terms in each get-value command
+}
+
+// modelPlan lists the leaves below lits and renders the get-value commands that read them.
+func modelPlan(lits []*Term) (string, *modelPlanT) {
+	p := &modelPlanT{}
+	seen := map[*Term]bool{}
+	for _, l := range lits {
+		collectLeaves(l, seen, func(t *Term) {
+			switch t.Op {
+			case OpVar, OpBVar:
+				p.vars = append(p.vars, t)
+			case OpSelect:
+				p.sels = append(p.sels, t)
+			case OpUF:
+				p.ufs = append(p.ufs, t)
+			}
+		})
+	}
+	var sb strings.Builder
+	emit := func(ts []*Term) {
+		for i := 0; i < len(ts); i += 200 {
+			j := min(i+200, len(ts))
+			sb.WriteString("(get-value (")
+			for _, t := range ts[i:j] {
+				sb.WriteString(termRef(t) + " ")
+			}
+			sb.WriteString("))\n")
+			p.cmdSizes = append(p.cmdSizes, j-i)
+		}
+	}
+	emit(p.vars)
+	idx := make([]*Term, len(p.sels))
+	for i, t := range p.sels {
+		idx[i] = t.Args[0]
+	}
+	emit(idx)
+	emit(p.sels)
+	for _, t := range p.ufs {
+		if len(t.Args) > 0 {
+			emit(t.Args)
+		}
+		emit([]*Term{t})
+	}
+	return sb.String(), p
+}
+
+// build turns the get-value responses (one per command, in order) into a model.
+func (p *modelPlanT) build(resp []string, constArrs map[string][]byte) *Model {
+	if len(resp) != len(p.cmdSizes) {
+		return nil
+	}
+	var vals []uint64
+	for i, r := range resp {
+		v := parseGetValue(r)
+		if len(v) != p.cmdSizes[i] {
+			return nil
+		}
+		vals = append(vals, v...)
+	}
+	m := &Model{Vars: map[string]uint64{}, Arrays: map[string]map[uint64]uint64{}, UFs: map[string]map[string]uint64{}, ConstArrs: constArrs}
+	k := 0
+	for _, t := range p.vars {
+		m.Vars[t.Name] = vals[k]
+		k++
+	}
+	iv := vals[k : k+len(p.sels)]
+	k += len(p.sels)
+	sv := vals[k : k+len(p.sels)]
+	k += len(p.sels)
+	for i, t := range p.sels {
+		if m.Arrays[t.Name] == nil {
+			m.Arrays[t.Name] = map[uint64]uint64{}
+		}
+		m.Arrays[t.Name][iv[i]] = sv[i]
+	}
+	for _, t := range p.ufs {
+		var sb strings.Builder
+		for i := range t.Args {
+			if i > 0 {
+				sb.WriteByte(',')
+			}
+			fmt.Fprintf(&sb, "%d", vals[k])
+			k++
+		}
+		if m.UFs[t.Name] == nil {
+			m.UFs[t.Name] = map[string]uint64{}
+		}
+		m.UFs[t.Name][sb.String()] = vals[k]
+		k++
+	}
+	return m
+}
+
+// ---------------------------------------------------------------- racing portfolio
+
+type raceRes struct {
+	r    Result
+	resp []string
+	who  string
+	err  error
+}
+
+// splitSexps splits solver output into top-level s-expressions / atoms.
+func splitSexps(out string) []string {
+	var res []string
+	depth, start := 0, -1
+	inBar := false
+	for i, c := range out {
+		switch {
+		case c == '|':
+			inBar = !inBar
+			if start < 0 {
+				start = i
+			}
+		case inBar:
+		case c == '(':
+			if depth == 0 && start < 0 {
+				start = i
+			}
+			depth++
+		case c == ')':
+			depth--
+			if depth == 0 && start >= 0 {
+				res = append(res, out[start:i+1])
+				start = -1
+			}
+		case c == ' ' || c == '\n' || c == '\t' || c == '\r':
+			if depth == 0 && start >= 0 {
+				res = append(res, out[start:i])
+				start = -1
+			}
+		default:
+			if start < 0 {
+				start = i
+			}
+		}
+	}
+	if start >= 0 && depth == 0 {
+		res = append(res, strings.TrimSpace(out[start:]))
+	}
+	return res
+}
+
+func parseStatus(tok string) (Result, bool) {
+	switch tok {
+	case "sat":
+		return Sat, true
+	case "unsat":
+		return Unsat, true
+	case "unknown", "timeout":
+		return Unknown, true
+	}
+	return Unknown, false
+}
+
+// race runs the query on the persistent z3 and, if that does not answer quickly, on one-shot
+// cvc5 processes with different strategies; the first definite answer wins.
+func (s *Solver) race(body, getvals string, nGet int) (Result, []string, string, error) {
+	ch := make(chan raceRes, 4)
+	var procs []*exec.Cmd
+	timeout := time.Duration(s.TimeoutMS) * time.Millisecond
+	// racer 1: the persistent solver
+	go func() {
+		s.send("(reset)")
+		if s.cvc5 {
+			s.send("(set-logic ALL)")
+		} else {
+			s.send("(set-option :produce-models true)")
+			s.send(fmt.Sprintf("(set-option :timeout %d)", s.TimeoutMS))
+		}
+		s.send(body)
+		s.send("(check-sat)")
+		line, err := s.readSexp()
+		if err != nil {
+			ch <- raceRes{Unknown, nil, s.bin, nil} // killed because another racer won, or died
+			return
+		}
+		r, ok := parseStatus(line)
+		if !ok {
+			ch <- raceRes{Unknown, nil, s.bin, fmt.Errorf("solver said: %s", line)}
+			return
+		}
+		var resp []string
+		if r == Sat && nGet > 0 {
+			s.send(getvals)
+			for i := 0; i < nGet; i++ {
+				x, err := s.readSexp()
+				if err != nil {
+					ch <- raceRes{Unknown, nil, s.bin, nil}
+					return
+				}
+				resp = append(resp, x)
+			}
+		}
+		ch <- raceRes{r, resp, s.bin, nil}
+	}()
+	stop := make(chan struct{})
+	var mu sync.Mutex
+	stopped := false
+	oneShot := func(name, bin string, args []string, delay time.Duration) {
+		go func() {
+			select {
+			case <-time.After(delay):
+			case <-stop:
+				ch <- raceRes{Unknown, nil, name, nil}
+				return
+			}
+			cmd := exec.Command(bin, args...)
+			cmd.Stdin = strings.NewReader("(set-logic ALL)\n(set-option :produce-models true)\n" + body + "(check-sat)\n" + getvals)
+			mu.Lock()
+			if stopped {
+				mu.Unlock()
+				ch <- raceRes{Unknown, nil, name, nil}
+				return
+			}
+			procs = append(procs, cmd)
+			mu.Unlock()
+			out, _ := cmd.Output()
+			toks := splitSexps(string(out))
+			if len(toks) == 0 {
+				ch <- raceRes{Unknown, nil, name, nil}
+				return
+			}
+			r, ok := parseStatus(toks[0])
+			if !ok {
+				ch <- raceRes{Unknown, nil, name, nil}
+				return
+			}
+			var resp []string
+			if r == Sat {
+				resp = toks[1:]
+				if len(resp) != nGet {
+					r = Unknown
+				}
+			}
+			ch <- raceRes{r, resp, name, nil}
+		}()
+	}
+	nRacers := 1
+	tl := fmt.Sprintf("--tlimit=%d", s.TimeoutMS)
+	if !s.noRace {
+		oneShot("cvc5-int", "cvc5", []string{"--lang=smt2", "--solve-bv-as-int=sum", tl}, s.raceDelay)
+		oneShot("cvc5", "cvc5", []string{"--lang=smt2", tl}, 1500*time.Millisecond)
+		nRacers = 3
+	}
+	var best raceRes
+	best.r = Unknown
+	deadline := time.After(timeout + 5*time.Second)
+	got := 0
+	var firstErr error
+	z3done := false
+loop:
+	for got < nRacers {
+		select {
+		case rr := <-ch:
+			got++
+			if rr.who == s.bin {
+				z3done = true
+			}
+			if rr.err != nil && firstErr == nil {
+				firstErr = rr.err
+			}
+			if rr.r != Unknown {
+				best = rr
+				break loop
+			}
+			if best.who == "" {
+				best.who = rr.who
+			}
+		case <-deadline:
+			break loop
+		}
+	}
+	// stop the losers
+	close(stop)
+	mu.Lock()
+	stopped = true
+	for _, c := range procs {
+		if c.Process != nil {
+			c.Process.Kill()
+		}
+	}
+	mu.Unlock()
+	if !z3done {
+		// the persistent solver is still busy: kill it (its goroutine ends on the read error) and start a new one
+		s.cmd.Process.Kill()
+		s.cmd.Wait()
+		for !z3done {
+			rr := <-ch
+			if rr.who == s.bin {
+				z3done = true
+			}
+		}
+		if err := s.start(); err != nil {
+			fatalf("cannot restart solver: %v", err)
+		}
+	}
+	if best.who == "" {
+		best.who = "none"
+	}
+	if best.r != Unknown {
+		firstErr = nil
+	}
+	return best.r, best.resp, best.who, firstErr
 }
